@@ -475,8 +475,29 @@ class CustomRun:
         idx = list(range(len(self.items)))
         shards = [idx[i::nshards] for i in range(nshards) if idx[i::nshards]]
 
+        self.uncompiled = {}
+
         def one(t):
             si, sh = t
+            try:
+                return build(si, sh)
+            except common.AnalysisBroken as e:
+                if len(sh) == 1:
+                    self.uncompiled[sh[0]] = str(e)
+                    return ({}, {}), None
+            # one operation of the shard does not compile: the others are still decided (a change that removes an operation from one kind of
+            # range usually also breaks a law on the kinds that keep it, and that report must not be lost)
+            funcs, structs = {}, {}
+            for k, i in enumerate(sh):
+                try:
+                    (f, s_), _ = build("%s_%d" % (si, k), [i])
+                    funcs.update(f)
+                    structs.update(s_)
+                except common.AnalysisBroken as e:
+                    self.uncompiled[i] = str(e)
+            return (funcs, structs), "cus_%s_%s_%s_*.cpp" % (self.pid, self.tag, si)
+
+        def build(si, sh):
             out = [PRELUDE, extra_prelude]
             for i in sh:
                 it = self.items[i]
@@ -489,7 +510,7 @@ class CustomRun:
                     out.append("\tmulti::subarray<double, %d> v(mk%d(%s), base);" % (D, D, dargs))
                 out.append("\t" + it.body)
                 out.append("}")
-            src = os.path.join(self.wd, "cus_%s_%s_%d.cpp" % (self.pid, self.tag, si))
+            src = os.path.join(self.wd, "cus_%s_%s_%s.cpp" % (self.pid, self.tag, si))
             with open(src, "w") as fh:
                 fh.write("\n".join(out) + "\n")
             text = irval.emit_ir(src, src[:-4] + ".ll", defines=tuple(defines) + ("-fno-vectorize", "-fno-slp-vectorize"))
@@ -499,13 +520,19 @@ class CustomRun:
         for (f, s), name in witness.parallel(one, list(enumerate(shards))):
             funcs.update(f)
             structs.update(s)
-            self.rep.units.add(name)
+            if name:
+                self.rep.units.add(name)
         self.ev = irval.Evaluator(funcs, structs)
 
     def check(self):
         rep = self.rep
         cmp_ = ViewRun(rep, self.pid, self.zb, self.wd)
         for i, it in enumerate(self.items):
+            if i in getattr(self, "uncompiled", {}):
+                msg = self.uncompiled[i]
+                m = re.search(r"error: (.*)", msg)
+                rep.break_("the driver operation of %s does not compile: %s" % (it.key, (m.group(1) if m else msg)[:200]))
+                continue
             for ci, case in enumerate(it.cases):
                 env = {k: v for k, v in case.items() if not k.startswith("__")}
                 signs = base_signs(it.D)
